@@ -400,6 +400,52 @@ def clone_routes(obj):
     return out
 
 
+import io as _io
+
+
+class PipeStream(_io.RawIOBase):
+    """a binary stream that can only be read forward (a pipe, a socket, `subprocess.Popen(...).stdout`): not seekable, no
+    `tell`; `read(n)` may return fewer bytes than asked for (never 0 before the end)"""
+
+    def __init__(self, data, short=0):
+        super().__init__()
+        self._d, self._p, self._short = bytes(data), 0, short
+
+    def readable(self):
+        return True
+
+    def seekable(self):
+        return False
+
+    def seek(self, *a):
+        raise _io.UnsupportedOperation("seek")
+
+    def tell(self):
+        raise _io.UnsupportedOperation("tell")
+
+    def read(self, n=-1):
+        if n is None or n < 0:
+            n = len(self._d) - self._p
+        if self._short and n > self._short:
+            n = self._short
+        out = self._d[self._p:self._p + n]
+        self._p += len(out)
+        return out
+
+    def readinto(self, b):
+        out = self.read(len(b))
+        b[:len(out)] = out
+        return len(out)
+
+
+def offset_stream(data, junk=b"JUNK-before-the-record:" + bytes(range(9, 41))):
+    """a seekable stream in which the record does NOT start at offset 0 (the second record of a stream, an entry of a
+    container): positioned at the record's first byte"""
+    f = _io.BytesIO(bytes(junk) + bytes(data))
+    f.seek(len(junk))
+    return f
+
+
 # ---- floats over the line protocol ---------------------------------------------------------
 import struct
 
